@@ -16,6 +16,7 @@ import (
 	"verifharness/gen"
 	"verifharness/lib"
 	"verifharness/model"
+	"verifharness/refavro"
 )
 
 // C10 — delivered values stay intact until their resource bank is closed.
@@ -175,6 +176,8 @@ func c10fileLevel(c *core.Ctx, i int) {
 		if h.closeAt >= 0 && h.closeAt-k >= 3 {
 			c.Count("retained-across-3-records", 1)
 		}
+		// the holder adds an entry of its own to every empty map of the record it holds
+		c.Count("entries-added-to-empty-maps", int64(markEmptyMaps(f.t, h.val, f.want[h.k], fmt.Sprintf("holder-of-record-%d", h.k), 0)))
 		// the holder appends in place: the spare capacity of its slices is written to
 		c.Count("spare-capacity-bytes-written", int64(scribbleSpareCapacity(h.val, 0)))
 		held = append(held, h)
@@ -651,6 +654,10 @@ func c10codecLevel(c *core.Ctx, i int) {
 		return
 	}
 	c.Journal(c.CurCase(), "codec-level "+trunc(t.String(), 300))
+	var rs *refavro.Schema
+	if js, err := ls.Marshal(); err == nil {
+		rs, _ = refavro.ParseSchema(js)
+	}
 	n := 6 + r.IntN(10)
 	var want, got []reflect.Value
 	var encs [][]byte
@@ -660,7 +667,19 @@ func c10codecLevel(c *core.Ctx, i int) {
 		wb.Reset()
 		codec.Write(wb, v.Addr().UnsafePointer())
 		want = append(want, v)
-		encs = append(encs, append([]byte(nil), wb.Bytes()...))
+		enc := append([]byte(nil), wb.Bytes()...)
+		// every other message is re-framed by the reference writer with the first entry of each map written twice
+		// (same key, same value: the same map) and arrays/maps split into blocks
+		if k%2 == 1 && rs != nil {
+			if ds, err := refavro.DecodeAll(rs, enc, 1); err == nil {
+				dupMapEntries(ds[0])
+				if e2, err := refavro.Encode(nil, rs, ds[0], &gen.RandChooser{R: r, Style: r.IntN(4)}); err == nil {
+					enc = e2
+					c.Count("messages-with-repeated-map-keys", 1)
+				}
+			}
+		}
+		encs = append(encs, enc)
 	}
 	verify := func(at string) bool {
 		for k := range got {
@@ -681,6 +700,10 @@ func c10codecLevel(c *core.Ctx, i int) {
 			}
 			// rb goes out of scope here, its bank still open
 		}()
+		// the message buffer is the caller's again: it is reused for something else
+		for x := range encs[k] {
+			encs[k][x] = 0xEE
+		}
 		got = append(got, v.Elem())
 		if k%3 == 2 {
 			runtime.GC()
@@ -701,6 +724,29 @@ func c10codecLevel(c *core.Ctx, i int) {
 	c.Eval(n)
 	c.Count("codec-level-cases", 1)
 	c.Shape("codec|" + t.Shape())
+}
+
+// dupMapEntries appends a copy of the first entry to every non-empty map in the datum.
+func dupMapEntries(d any) {
+	switch x := d.(type) {
+	case *refavro.Record:
+		for _, f := range x.Fields {
+			dupMapEntries(f)
+		}
+	case *refavro.Union:
+		dupMapEntries(x.Val)
+	case []any:
+		for _, e := range x {
+			dupMapEntries(e)
+		}
+	case *refavro.Map:
+		for _, e := range x.Entries {
+			dupMapEntries(e.Val)
+		}
+		if len(x.Entries) > 0 {
+			x.Entries = append(x.Entries, x.Entries[0])
+		}
+	}
 }
 
 func runC10(c *core.Ctx, i int) {
